@@ -245,7 +245,7 @@ func checkC07(c *lib.Ctx) {
 						n := uint32(ri.res.StrLens[i][fi])
 						seen := map[uint32]bool{n: true}
 						for _, v := range []uint32{0, n - 1, n + 1, n + 1000, 1<<32 - 1} {
-							if !seen[v] && !(n == 0 && v == 1<<32-1 && false) {
+							if !seen[v] { // (n-1 wraps to 2^32-1 for an empty string: de-duplicated here)
 								seen[v] = true
 								addMut(ri, ssMut{Kind: "strlen", Frame: i, Off: o, Val: v})
 							}
